@@ -44,6 +44,9 @@ type SignSpec struct {
 	// ("Extensions") instead of directly under it; the enveloped transform removes only the
 	// Signature, so the (then empty) wrapper is part of the signed content.
 	Nested string `json:"nested,omitempty"`
+	// Wrap64 breaks the base64 text of DigestValue, SignatureValue and X509Certificate into
+	// 64-character lines, as most IdP implementations do.
+	Wrap64 bool `json:"wrap64,omitempty"`
 }
 
 func (s SignSpec) Signed() bool { return s.Key != "" }
